@@ -295,6 +295,8 @@ def check_conc(pid, name, cases, res):
         res.evaluations += 1
         res.count('conc: %s, %s hasher' % (case['mode'], case['hasher']))
         res.count('conc: goroutines %s' % ('1' if len(case['threads']) == 1 else '2-8' if len(case['threads']) <= 8 else '9-32'))
+        if case.get('forced'):
+            res.extra.setdefault('forced_overlaps', {}).setdefault('second lookup of a key while the first caller sits between its lookup and its insert', dict(achieved=0, infeasible=0, unused=0))[case['forced']] += 1
         if case.get('panicked'):
             res.violations.append(dict(signature='C14/panic', what='a call into the deduplicator panicked: ' + case['panicked'], case=describe_conc(case)))
             continue
